@@ -12,21 +12,23 @@ PROP = dict(
           "member_sequences: per index one Rand32 and one Rand48 sequence of 10^4 member calls from a random / extreme seed or an injected extreme state, every call range-checked "
           "(nextf in [0,1), nexti in [0,2^32) resp. [0,2^31), nextb a 0/1 byte, nextf(a,b) outside the closed interval by at most 8 roundings of the larger end point, a,b from 8 classes "
           "incl. reversed, equal, +-FLT_MAX/DBL_MAX, subnormal), Rand48 members compared with ::nrand48/::erand48 applied to the observed state, then replayed on a twin constructed in "
-          "differently pre-filled storage. sphere_gauss_samplers: 12 Vec x generator combinations, 16 draws per generator state. "
+          "differently pre-filled storage. sphere_gauss_samplers: Vec2/3/4 x float/double x Rand32/Rand48 (idx mod 12), 4 rounds of solidSphereRand (|v|^2 <= 1 + 8 eps in long double, worst seen 0.84 eps), "
+          "hollowSphereRand (| |v| - 1 | <= 16 eps, worst seen 1.47 eps), gaussRand and gaussSphereRand (finite) per generator state (random / extreme seed, injected boundary state), "
+          "each draw repeated on a same-state twin. A start-up probe and a watchdog turn a non-terminating rejection loop into a violation instead of a hang. "
           "Distinct cases: states / histories / (generator, state, combination) by hash (uniform states every 4th: a lower bound, capped by the framework), each position of a randomly seeded "
           "sequence counts as one case; all are non-trivial (each is one judged call or call sequence)."),
     assumptions=["the platform's nrand48/erand48/srand48/lrand48/drand48 (glibc) implement POSIX; they are cross-checked against an independent LCG model on every call",
                  "Rand32/Rand48 are observed and put into extreme states through their object representation (both are trivially copyable standard-layout classes of 8 resp. 6 bytes)",
                  "unsigned long is 64 bits (LP64); 'documented range' of Rand32::nexti is the header's [0 ... 0xffffffff]",
-                 "'up to one rounding' is read as: distance outside [min(a,b),max(a,b)] <= C*(eps*max(|a|,|b|) + denorm_min); a-priori bound C=1, worst observed 0.9996, monitored at C=8",
+                 "'up to one rounding' is read as: distance outside [min(a,b),max(a,b)] <= C*(eps*max(|a|,|b|) + denorm_min); a-priori bound C=1, worst observed 0.997 in 4.6*10^9 calls, monitored at C=8",
                  "the static state before the first srand48 of the process is not part of the statement (every history seeds first)",
                  "statistical quality of the sequences is not judged"],
     technique=("model-based differential execution: every call of the rand48 family is compared with two independent oracles (POSIX libc, own LCG) after each step of generated call "
                "histories; metamorphic twin/replay comparison for purity; geometric post-conditions in long double for the samplers; class-directed boundary states via the inverse LCG; "
-               "ASan/UBSan on a 5 % sweep"),
-    level_text=("Each run executes 1.6*10^8 (quick) / 5*10^9 (thorough) judged rand48 calls from 2*10^7 / 6.4*10^8 start states with every named boundary class hit deterministically, "
-                "4*10^5 / 1.2*10^7 mixed call histories, 2*10^8 / 6*10^9 generator member calls (10^4 / 3*10^5 seeds and extreme states x 10^4 positions x two generators) and 3.8*10^7 / "
-                "1.9*10^9 sampler draws. The 2^48 states, 2^64 seeds and the call sequences are sampled, not enumerated; because the update is one 64-bit multiply-add with fixed constants and "
+               "ASan/UBSan on a 5 % (thorough: 2 %) sweep"),
+    level_text=("Each run executes 1.6*10^8 (quick) / 1.0*10^10 (thorough) judged rand48 calls from 2*10^7 / 1.28*10^9 start states with every named boundary class hit deterministically, "
+                "4*10^5 / 2.4*10^7 mixed call histories, 2*10^8 / 1.2*10^10 generator member calls (10^4 / 6*10^5 seeds and extreme states x 10^4 positions x two generators) and 3.8*10^7 / "
+                "3.8*10^9 sampler draws. The 2^48 states, 2^64 seeds and the call sequences are sampled, not enumerated; because the update is one 64-bit multiply-add with fixed constants and "
                 "the outputs are fixed bit-fields of the state, the uniform sample plus the carry/overflow boundary classes leave little room for a state-dependent defect."),
     level_note="states, seeds and histories are sampled; positions beyond 10^4 in one sequence are not visited; only glibc is used as the POSIX reference",
     monitors=[M("c18_random", ["c18_random.cpp", "c18_samplers.cpp"], san_scale=0.05, san_scale_thorough=0.02)],
